@@ -276,7 +276,7 @@ func VerifC15_q_syncConverges() {
 	h.noDangling("second resync")
 }
 
-// BOUND: a synchronised node (0..1 policy out of the shapes (quick 5, thorough 8), db present / absent / without address) receives 1..2 events (quick) or 1..3 (thorough) out of {policy added, policy changed, policy deleted, db pod added, db pod gets its address, db pod deleted}, each delivered to the real handler of event.go after the listers changed; after every event the node is compared with a freshly synchronised node; every batch is checked by the strict iptables layer
+// BOUND: a synchronised node (0..1 policy out of the shapes (quick 5, thorough 8), db present / absent / without address) receives 1..2 events (quick) or 1..3 (thorough) out of {policy added, policy changed, policy deleted, db pod added, db pod gets its address, db pod deleted, pod web2 of another namespace and node added or deleted}, each delivered to the real handler of event.go after the listers changed; after every event the node is compared with a freshly synchronised node; every batch is checked by the strict iptables layer
 func VerifC15_q_eventsConverge() {
 	w, st, ss := vNewStrictWorld()
 	h := &vC15{w: w, st: st, ss: ss}
@@ -296,7 +296,28 @@ func VerifC15_q_eventsConverge() {
 	n := 1 + nondetChoice(steps)
 	for i := 0; i < n; i++ {
 		when := ""
-		switch nondetChoice(5) {
+		switch nondetChoice(6) {
+		case 5: // web2 (other namespace, other node, labelled app=web) appears or goes away
+			var old *corev1.Pod
+			for _, p := range w.c.pods {
+				if p.Name == "web2" {
+					old = p
+				}
+			}
+			s.web2 = !s.web2
+			w.setState(s)
+			if old != nil {
+				_ = w.pm.DeletePod(old)
+				when = "pod of another namespace deleted"
+			} else {
+				for _, p := range w.c.pods {
+					if p.Name == "web2" {
+						_ = w.pm.AddPod(p)
+						_ = w.pm.UpdatePod(p, p)
+					}
+				}
+				when = "pod of another namespace added"
+			}
 		case 0: // a policy appears
 			verifAssume(len(s.pols) < 2)
 			name := "np-a"
